@@ -39,7 +39,7 @@ def evaluate(
         only fitted on the first train window data and then updated, or always refitted.
     scoring : object of class MetricFunctionWrapper from
         sktime.performance_metrics, optional. Example scoring=sMAPE().
-        Used to get a score function that takes y_pred and y_test as arguments,
+        Used to get a score function that takes y_test and y_pred as arguments,
         by default None (if None, uses sMAPE)
     fit_params : dict, optional (default=None)
         Parameters passed to the `fit` call of the forecaster.
@@ -103,7 +103,7 @@ def evaluate(
         pred_time = time.time() - start_pred
 
         # score
-        score = scoring(y_pred, y_test)
+        score = scoring(y_test, y_pred)
 
         # save results
         results = results.append(
